@@ -8,7 +8,7 @@ _SIGMA = [
     # raw reserved
     (":", 1), ("@", 0), ("/", 1), ("?", 0), ("=", 1), ("&", 1), (";", 0), ("+", 1), ("!", 0), (",", 0), ("(", 0), (" ", 1), ("#", 0),
     # escaped unreserved
-    ("%41", 1), ("%61", 0), ("%7E", 0), ("%7e", 1), ("%2D", 0),
+    ("%41", 1), ("%61", 0), ("%7E", 0), ("%7e", 1), ("%2D", 0), ("%2E", 1),
     # escaped multi-byte
     ("%C3%A9", 1), ("%c3%a9", 0), ("%E2%82%AC", 0), ("%F0%9F%98%80", 0),
     # escaped space-likes
